@@ -113,6 +113,13 @@ class Overlay:
                 n, name = arg.split()
                 self.fns[cur_fn]['loopvar'][int(n)] = name
                 cur_sec = None
+            elif d == 'closureopaque':
+                # `//@ closureopaque N <env expression>` (R17): see FnRewriter._emit_range
+                parts = arg.split(None, 1)
+                if len(parts) != 2:
+                    raise Undecided('overlay %s:%d: closureopaque needs an ordinal and an expression' % (path, ln))
+                self.fns[cur_fn].setdefault('closureopaque', {})[int(parts[0])] = (parts[1], ln)
+                cur_sec = None
             elif d in ('loop', 'closure', 'beforeloop', 'loopentry', 'afterinit', 'loopend', 'closurecall', 'afterloop'):
                 parts = arg.split()
                 cur_sec = (d, int(parts[0]))
@@ -350,6 +357,9 @@ class FnRewriter:
         if getattr(self, '_mut_self', False):
             flush()
             pieces.append(Piece(' let mut self_ = self;', ('gen', 'R12 mutable rebinding of a `mut self` receiver')))
+        for mp in getattr(self, '_mut_params', []):
+            flush()
+            pieces.append(Piece(' let mut %s_ = %s;' % (mp, mp), ('gen', 'R12 mutable rebinding of a `mut` parameter')))
         if 'entry' in self.ov:
             text, line = self.ov['entry']
             overlay_piece('\n' + text, line - 1, 'entry')
@@ -622,6 +632,19 @@ class FnRewriter:
                 while pv >= lo and toks[pv].kind in ('ws', 'comment'):
                     pv -= 1
                 by_ref = pv >= lo and (toks[pv].text == '&' or toks[pv].kind == 'lifetime')   # `&mut self`, `&'a mut self`
+                if (k < hi and toks[k].kind == 'ident' and toks[k].text != 'self' and not by_ref
+                        and toks[k].text in self.unit.get('mut_params', [])):
+                    # R12 (named by-value parameter): `mut x: T` -> `x: T`; body gets `let mut x_ = x;`
+                    # and every `x` token of the body becomes `x_` (so that contracts and invariants can
+                    # name the value at entry: `x`, and the current value: `x_`)
+                    if not hasattr(self, '_mut_params'):
+                        self._mut_params = []
+                    self._mut_params.append(toks[k].text)
+                    self.log.append({'rule': 'R12', 'fn': self.fnkey, 'line': self.sf.line_of(t.start),
+                                     'what': '`mut %s` parameter -> `%s`; `let mut %s_ = %s;` at body entry, '
+                                             '`%s` -> `%s_` in the body' % ((toks[k].text,) * 6)})
+                    j = k
+                    continue
                 if k < hi and toks[k].kind == 'ident' and toks[k].text == 'self' and not by_ref:
                     self._mut_self = True
                     self.log.append({'rule': 'R12', 'fn': self.fnkey, 'line': self.sf.line_of(t.start),
@@ -666,6 +689,14 @@ class FnRewriter:
                                     + _nl(''.join(x.text for x in toks[j:q2 + 1])), j)
                                 j = q2 + 1
                                 continue
+            if t.kind == 'ident' and in_body and t.text in getattr(self, '_mut_params', ()):
+                pk = j - 1
+                while pk >= lo and toks[pk].kind in ('ws', 'comment'):
+                    pk -= 1
+                if not (pk >= lo and toks[pk].kind == 'punct' and toks[pk].text in '.:'):
+                    out(t.text + '_', j)
+                    j += 1
+                    continue
             if t.kind == 'ident' and t.text == 'self' and in_body and getattr(self, '_mut_self', False):
                 out('self_', j)
                 j += 1
@@ -746,6 +777,8 @@ class FnRewriter:
                     if des is not None:
                         # R9: `for PAT in &mut IT { B }`  ==>  `loop { match IT.next() { Some(PAT) => { B } None => break, } }`
                         pat, itname = des
+                        if itname in getattr(self, '_mut_params', ()):
+                            itname = itname + '_'     # R12 renamed this by-value parameter
                         e = match_close(toks, b)
                         self.log.append({'rule': 'R9', 'fn': self.fnkey, 'line': self.sf.line_of(t.start),
                                          'what': 'for %s in &mut %s desugared to loop/match %s.next()' % (pat, itname, itname)})
@@ -918,6 +951,39 @@ class FnRewriter:
                     ce = k
                 self._closure_no += 1
                 n = self._closure_no
+                if overlay_piece and n in self.ov.get('closureopaque', {}):
+                    # R17 closure-opaque: the whole n-th closure literal (header and body) is replaced by
+                    # the env expression given in `//@ closureopaque n EXPR` (an assumed `impl FnMut..`
+                    # value).  The body is NOT verified in this unit and closures nested in it are not
+                    # counted; only obligations that hold before the closure can first run (call-site
+                    # preconditions of the function it is passed to) may be claimed from such a function.
+                    expr, oline = self.ov['closureopaque'][n]
+                    q = ce + 1
+                    while q < hi and toks[q].kind in ('ws', 'comment'):
+                        q += 1
+                    if toks[q].kind == 'punct' and toks[q].text == '-' and toks[q + 1].text == '>':
+                        while not (toks[q].kind == 'punct' and toks[q].text == '{'):
+                            q += 1
+                    if toks[q].kind == 'punct' and toks[q].text == '{':
+                        end = match_close(toks, q) + 1
+                    else:
+                        end = q
+                        while end < hi:
+                            te = toks[end]
+                            if te.kind == 'punct' and te.text in rustlex.OPEN:
+                                end = match_close(toks, end) + 1
+                                continue
+                            if te.kind == 'punct' and te.text in ',)]};':
+                                break
+                            end += 1
+                    orig = ''.join(x.text for x in toks[j:end])
+                    self.log.append({'rule': 'R17', 'fn': self.fnkey, 'line': self.sf.line_of(t.start),
+                                     'what': 'closure %d (%d lines) replaced by the env expression `%s`; its body is not '
+                                             'part of this unit' % (n, orig.count('\n') + 1, expr)})
+                    overlay_piece(expr, oline, 'closureopaque%d' % n)
+                    out(_nl(orig), j)
+                    j = end
+                    continue
                 if overlay_piece and n in self.ov['closures']:
                     text, line = self.ov['closures'][n]
                     orig = ''.join(x.text for x in toks[j:ce + 1])
@@ -925,11 +991,22 @@ class FnRewriter:
                                      'what': 'closure header %s replaced by annotated header' % orig})
                     overlay_piece(text, line, 'closure%d' % n)
                     out(_nl(orig), j)
+                    # R4c: a tuple-pattern parameter `(a, b)` of the ORIGINAL header (k-th parameter) is
+                    # re-bound at the start of the closure body from the annotated header's `__cpK`
+                    r4c = self._closure_tuple_params(j, ce)
+                    for letstmt in r4c:
+                        self.log.append({'rule': 'R4c', 'fn': self.fnkey, 'line': self.sf.line_of(t.start),
+                                         'what': 'closure %d: tuple-pattern parameter destructured at body entry: %s'
+                                                 % (n, letstmt)})
                     j = ce + 1
                     # an annotated closure needs a block body: wrap a bare expression body
                     q = j
                     while q < hi and toks[q].kind in ('ws', 'comment'):
                         q += 1
+                    if r4c and toks[q].kind == 'punct' and toks[q].text == '{':
+                        out('{ ' + ' '.join(r4c) + ' ', q)
+                        j = q + 1
+                        continue
                     if not (toks[q].kind == 'punct' and toks[q].text == '{'):
                         e = q
                         while e < hi:
@@ -940,7 +1017,7 @@ class FnRewriter:
                             if te.kind == 'punct' and te.text in ',)]};':
                                 break
                             e += 1
-                        out('{', q)
+                        out('{' + (' ' + ' '.join(r4c) + ' ' if r4c else ''), q)
                         self._emit_range(q, e, out, rw, pathmap, in_body, overlay_piece)
                         out('}', e - 1)
                         j = e
@@ -952,6 +1029,37 @@ class FnRewriter:
                     continue
             out(t.text, j)
             j += 1
+
+    def _closure_tuple_params(self, bar_o, bar_c):
+        """`let PAT = __cpK;` for every parameter K of the closure header toks[bar_o..bar_c]
+        that is a tuple pattern."""
+        toks = self.sf.toks
+        lets = []
+        k = bar_o + 1
+        seg = k
+        idx = 0
+        angle = 0
+        while k <= bar_c:
+            tk = toks[k]
+            if k < bar_c and tk.kind == 'punct' and tk.text in '([':
+                k = match_close(toks, k) + 1
+                continue
+            if k < bar_c and tk.kind == 'punct' and tk.text == '<':
+                angle += 1
+            elif k < bar_c and tk.kind == 'punct' and tk.text == '>' and angle and toks[k - 1].text not in ('-', '='):
+                angle -= 1
+            if k == bar_c or (tk.kind == 'punct' and tk.text == ',' and angle == 0):
+                idx += 1
+                q = seg
+                while q < k and toks[q].kind in ('ws', 'comment'):
+                    q += 1
+                if q < k and toks[q].kind == 'punct' and toks[q].text == '(':
+                    pc = match_close(toks, q)
+                    pat = ' '.join(''.join(x.text for x in toks[q:pc + 1] if x.kind != 'comment').split())
+                    lets.append('let %s = __cp%d;' % (pat, idx))
+                seg = k + 1
+            k += 1
+        return lets
 
     # ---- R3 helpers (for_each) ------------------------------------------
     def _stmt_start(self, j, lo):
@@ -1726,7 +1834,16 @@ def build(unit_dir, repo, canary=False):
             if fov is not None:
                 used_fnkeys.add(fnkey)
             raw = sf.text(fn_item[2], fn_item[3])
-            rw = FnRewriter(sf, fn_item, fnkey, fov, dict(unit, _sig=lifted, _wrap=wrap, **{k: it[k] for k in ('rewrites', 'pathmap') if k in it}), log)
+            # guard: occurrences of given token sequences (whitespace/comments ignored) in the item's text,
+            # e.g. {".write()": 1}: a new lock section the contracts do not speak about => undecided
+            if 'count' in it:
+                flat = ''.join(x.text for x in sf.toks[fn_item[2]:fn_item[3] + 1] if x.kind not in ('ws', 'comment'))
+                for pat, want in it['count'].items():
+                    got = flat.count(re.sub(r'\s+', '', pat))
+                    if got != want:
+                        raise Undecided('%s: `%s` occurs %d times in %s, the unit expects %d '
+                                        '(the contracts were written for that many)' % (unit['name'], pat, got, fnkey, want))
+            rw = FnRewriter(sf, fn_item, fnkey, fov, dict(unit, _sig=lifted, _wrap=wrap, **{k: it[k] for k in ('rewrites', 'pathmap', 'mut_params') if k in it}), log)
             for a in it.get('attrs', []):
                 # attributes for an extracted fn (e.g. #[verifier::exec_allows_no_decreases_clause]); logged
                 pieces.append(Piece(a + '\n', ('gen', 'attr')))
